@@ -113,6 +113,40 @@ def generate():
         return ok
     flag("capture_per_iteration", capture)
 
+    def wrapper_try():
+        w = astlib.find_func(astlib.find_class(astlib.module("klongpy/types.py"), "KGFnWrapper"), "__call__")
+        ifs = [n for n in astlib.body_no_doc(w) if isinstance(n, ast.If) and ast.unparse(n.test) == "self._sym is not None"]
+        if len(ifs) != 1 or len(ifs[0].body) != 1 or not isinstance(ifs[0].body[0], ast.Try):
+            raise ShapeError("KGFnWrapper.__call__: `if self._sym is not None:` holding one try expected")
+        t = ifs[0].body[0]
+        if t.finalbody or t.orelse:
+            raise ShapeError("KGFnWrapper.__call__: try with else/finally")
+        call_inside = any(astlib.calls_in(st, "call") for st in t.body)
+        names = set()
+        for h in t.handlers:
+            if [ast.unparse(x) for x in h.body if not isinstance(x, ast.Expr) or not isinstance(getattr(x, "value", None), ast.Constant)] != ["pass"]:
+                raise ShapeError("KGFnWrapper.__call__: except body is not `pass`")
+            if h.type is None:
+                names.add("*")
+            elif isinstance(h.type, ast.Tuple):
+                names |= {ast.unparse(x) for x in h.type.elts}
+            else:
+                names.add(ast.unparse(h.type))
+        # after the try: the captured function self.fn is run
+        rest = [ast.unparse(x) for x in astlib.body_no_doc(w)]
+        if "return self.klong.call(KGCall(self.fn.a, [*fn_args], self.fn.arity))" not in rest[-1]:
+            raise ShapeError("KGFnWrapper.__call__: does not end by calling the captured function")
+        return call_inside, names
+    # which exception classes raised by the CALL of the current definition are swallowed (then the old function runs);
+    # an unrecognised shape counts as "swallows" (fail closed: the theorems need klong/other = false)
+    def swallow_flag(name, pick):
+        v, why = astlib.try_flag(lambda: (lambda ci, ns: ci and bool(pick(ns)))(*wrapper_try()))
+        out.append("Definition %s : bool := %s.%s" % (name, astlib.coq_bool(True if why is not None else bool(v)),
+                                                       "" if why is None else "  (* shape not recognised: %s *)" % why))
+    swallow_flag("fallback_on_keyerror", lambda ns: ns & {"KeyError", "LookupError"})
+    swallow_flag("fallback_on_klong_exception", lambda ns: ns & {"KlongException"})
+    swallow_flag("fallback_on_other", lambda ns: ns - {"KeyError", "LookupError", "KlongException"})
+
     def tries():
         res = []
         for lp in _loops(webfn()):
@@ -198,8 +232,8 @@ def gen_web(rng, idx):
     behavs = []          # model behaviours, index = body id
     defs = []            # Klong definitions to evaluate before the dictionaries are built
 
-    def new_body():
-        kind = rng.choice(["const", "const", "count", "get", "fail"])
+    def new_body(only_failing=False):
+        kind = rng.choice(["const", "const", "count", "get", "failo", "faill", "failk"] if not only_failing else ["failo", "faill", "faill", "failk"])
         bid = len(behavs)
         if kind == "const":
             t = rng.choice(CONSTS)
@@ -212,9 +246,15 @@ def gen_web(rng, idx):
             k = rng.choice(KEYS[:3])
             behavs.append(["get", k])
             ret = 'x?"%s"' % k
-        else:
-            behavs.append(["fail"])
-            ret = "boom(1)"
+        elif kind == "failo":          # Python exception / TypeError / IndexError / AttributeError
+            behavs.append(["failo"])
+            ret = rng.choice(["boom(1)", '1+"a"', "[1 2]@9", '.fc("x")'])
+        elif kind == "faill":          # KlongException (undefined function)
+            behavs.append(["faill"])
+            ret = "undefd(x)"
+        else:                          # KeyError (a Python callable, or indexing the parameter dictionary with a missing key)
+            behavs.append(["failk"])
+            ret = rng.choice(["kerr(1)", 'x@5'])
         return bid, "{logf(%d;x);%s}" % (bid, ret)
 
     syms = []
@@ -247,13 +287,15 @@ def gen_web(rng, idx):
     events = []
     n = rng.randint(3, 9)
     known = [("get", p) for p, _, _ in gets] + [("post", p) for p, _, _ in posts]
+    named = [("get", p) for p, _, h in gets if h[0] == "fn" and h[1] == 1 and h[2][0] == "sym"] + \
+            [("post", p) for p, _, h in posts if h[0] == "fn" and h[1] == 1 and h[2][0] == "sym"]
     for _ in range(n):
         r = rng.random()
-        if r < 0.12 and syms:
+        if r < 0.2 and syms:
             s = rng.choice(syms)
             q = rng.random()
             if q < 0.6:
-                bid, code = new_body()
+                bid, code = new_body(only_failing=rng.random() < 0.5)        # good -> failing and failing -> good histories
                 events.append(["def", s, "%s::%s" % (s, code), ["fn", 1, bid]])
             elif q < 0.8:
                 events.append(["def", s, "%s::{x+y}" % s, ["fn", 2, 0]])
@@ -261,7 +303,7 @@ def gen_web(rng, idx):
                 events.append(["def", s, "%s::5" % s, ["other"]])
             continue
         if r < 0.75 and known:
-            m, p = rng.choice(known)
+            m, p = rng.choice(named if (named and rng.random() < 0.5) else known)
         elif r < 0.87:
             m, p = rng.choice(["get", "post"]), rng.choice(PATHS + ["/nope", "/a/b"])
         else:
@@ -401,11 +443,29 @@ def fixed_scenarios():
     w = {"kind": "web", "id": "fixed-two-routes", "defs": ['h0::{logf(0;x);"zero"}', 'h1::{logf(1;x);x?"k"}'],
          "gets": [("/", "h0", ["fn", 1, ["sym", "h0"], 0]), ("/a", "h1", ["fn", 1, ["sym", "h1"], 1])],
          "posts": [("/", "h1", ["fn", 1, ["sym", "h1"], 1]), ("/f", "{logf(2;x);boom(1)}", ["fn", 1, ["nosym"], 2])],
-         "behavs": [["const", "zero"], ["get", "k"], ["fail"], ["const", "neu"]],
+         "behavs": [["const", "zero"], ["get", "k"], ["failo"], ["const", "neu"]],
          "events": [["req", "get", "/", {}], ["req", "get", "/a", {"k": "vé", "x y": "a&b=c d+e%"}], ["req", "post", "/f", {"k": "1"}],
                     ["req", "post", "/", {"k": "after failure"}], ["def", "h0", 'h0::{logf(3;x);"neu"}', ["fn", 1, 3]],
                     ["req", "get", "/", {"a": ""}], ["req", "get", "/f", {}], ["req", "post", "/nope", {}]]}
     out = [w]
+    # good -> failing (each error class) -> good redefinitions of a named handler; never-redefined failing handlers
+    out.append({"kind": "web", "id": "fixed-redefine-into-failing",
+                "defs": ['h0::{logf(0;x);"v1"}', 'h1::{logf(1;x);undefd(x)}', 'h2::{logf(2;x);1+"a"}'],
+                "gets": [("/h", "h0", ["fn", 1, ["sym", "h0"], 0]), ("/f", "h1", ["fn", 1, ["sym", "h1"], 1]), ("/t", "h2", ["fn", 1, ["sym", "h2"], 2])],
+                "posts": [("/p", "h1", ["fn", 1, ["sym", "h1"], 1])],
+                "behavs": [["const", "v1"], ["faill"], ["failo"], ["faill"], ["failo"], ["const", "v2"], ["const", "p2"]],
+                "events": [["req", "get", "/h", {}], ["def", "h0", 'h0::{logf(3;x);undefd(x)}', ["fn", 1, 3]], ["req", "get", "/h", {"k": "1"}],
+                           ["req", "get", "/f", {}], ["req", "post", "/p", {"a": "b"}], ["req", "get", "/t", {}],
+                           ["def", "h0", 'h0::{logf(4;x);[1 2]@9}', ["fn", 1, 4]], ["req", "get", "/h", {}],
+                           ["def", "h0", 'h0::{logf(5;x);"v2"}', ["fn", 1, 5]], ["req", "get", "/h", {}],
+                           ["def", "h1", 'h1::{logf(6;x);"p2"}', ["fn", 1, 6]], ["req", "post", "/p", {}], ["req", "get", "/f", {}]]})
+    out.append({"kind": "web", "id": "K-keyerror",
+                "defs": ['h0::{logf(0;x);x@5}', 'h1::{logf(1;x);"ok"}'],
+                "gets": [("/k", "h0", ["fn", 1, ["sym", "h0"], 0]), ("/o", "h1", ["fn", 1, ["sym", "h1"], 1]),
+                         ("/i", '{logf(2;x);kerr(1)}', ["fn", 1, ["nosym"], 2])],
+                "posts": [], "behavs": [["failk"], ["const", "ok"], ["failk"], ["failk"]],
+                "events": [["req", "get", "/k", {"a": "1"}], ["req", "get", "/i", {}], ["req", "get", "/o", {}],
+                           ["def", "h1", 'h1::{logf(3;x);kerr(1)}', ["fn", 1, 3]], ["req", "get", "/o", {}]]})
     out.append({"kind": "ws", "id": "K-null", "msgs": [1, None, 2], "sends": [SENDS[0]]})
     out.append({"kind": "ws", "id": "K-ragged", "msgs": [1, [1, [2]], 2], "sends": []})
     out.append({"kind": "ws", "id": "K-mixed", "msgs": [[1, "x"], 3], "sends": [SENDS[5]]})
@@ -437,8 +497,11 @@ def logf(x, y):
     return 0
 def boom(x):
     raise ZeroDivisionError("boom")
+def kerr(x):
+    raise KeyError("kerr")
 klong['logf'] = logf
 klong['boom'] = boom
+klong['kerr'] = kerr
 K('.py("klongpy.web")')
 K('.py("klongpy.ws")')
 K('two::{x+y}')
@@ -696,6 +759,9 @@ def check_web(chk, sc, got, m_impl, m_good):
     c = cmp_resps(resps_i) or cmp_log(log_i)
     if c:
         corr = c
+    if prop is not None and corr is None and any(b == ["failk"] for b in sc["behavs"]) and "what" not in prop:
+        # the implementation does exactly what the model predicts for a handler failing with KeyError
+        prop = dict(prop, known_class="C20-web-keyerror-handler-runs-twice")
     return prop, corr
 
 
@@ -812,7 +878,7 @@ def evaluate(chk, scenarios):
     webs = [s for s in scenarios if s["kind"] == "web"]
     wss = [s for s in scenarios if s["kind"] == "ws"]
     m_impl = chk.run_model([sx_web(s) for s in webs])
-    m_good = chk.run_model([sx_web(s, (1, 1, 1, 1)) for s in webs])
+    m_good = chk.run_model([sx_web(s, (1, 1, 1, 1, 0, 0, 0)) for s in webs])
     m_ws = chk.run_model([sx(["ws"] + [jv_of(m) for m in s["msgs"] + [SENTINEL]]) for s in wss])
     for s, r in zip(wss, m_ws):
         if r[0] == "ok" and not r[2][1]:
@@ -837,7 +903,10 @@ def evaluate(chk, scenarios):
             seen.add(key)
             chk.count("distinct_nontrivial")
         chk.count("handler_invocations", len(mg_[1]))
-        if prop and first_prop is None:
+        if prop and prop.get("known_class") and chk.match_known(prop["known_class"]):
+            chk.finding(prop["known_class"], "a named handler failing with KeyError is run twice", {"scenario": sc, "failure": prop})
+            chk.count("known_finding_scenarios")
+        elif prop and first_prop is None:
             first_prop = (sc, prop)
         if corr and first_corr is None:
             first_corr = (sc, corr)
